@@ -66,10 +66,16 @@ def gen_mod(rnd, nm):
     k = 50 if nm == "mod1" else 60
     body = [("set", "v", ("c", k + 1)), ("set", "_p", ("c", k + 2)), ("settuple", ["tv", "tw", "_tq"], [("c", k + 5), ("c", k + 6), ("c", k + 7)])]
     mbody = [("text", "F"), _o("p"), _o("v"), _o("gl")] + [_o(rnd.choice(["x", "y", "g", "i", "h"]))]
+    if nm == "mod2" and rnd.random() < 0.6:
+        # an aliased import of a name this module also defines itself: the module still exposes its own v / f
+        body.append(("fromimport", "mod1", [("v", "v_alias"), ("f", "f_alias")] if rnd.random() < 0.5 else [("v", "v_alias")], rnd.choice([None, False])))
     body.append(("macro", "f", ["p"], mbody))
     body.append(("macro", "_h", [], [("text", "H")]))
     if rnd.random() < 0.5:
         body.append(("set", "w", ("vd", "g", 1)))   # depends on context visibility at import time
+    # top-level values that depend on what the importing scope lets the module see (loop / with locals under 'with context')
+    body.append(("set", "wi", ("vd", "i", 1)))
+    body.append(("set", "wy", ("vd", "y", 2)))
     body.append(("text", "MODTEXT"))
     return body
 
@@ -85,7 +91,7 @@ def gen_use(rnd, depth):
         wc = rnd.choice([None, True, False])
         out = [("import", tn, alias, wc), ("callm_attr", alias, "f", [("v", rnd.choice(["x", "g"]))]),
                ("out", ("attr", alias, "v")), ("out", ("attr", alias, "_p")), ("out", ("attr", alias, "w")), ("out", ("attr", alias, "zz")),
-               ("out", ("attr", alias, "tw")), ("out", ("attr", alias, "_tq"))]
+               ("out", ("attr", alias, "tw")), ("out", ("attr", alias, "_tq")), ("out", ("attr", alias, "wi")), ("out", ("attr", alias, "wy"))]
         return out
     if r < 0.62:
         tn = rnd.choice(["mod1", "mod2"])
